@@ -21,7 +21,8 @@ THEOREMS = [
     "C15_merge_order_and_precedence", "C15_merge_wording", "C15_extend_values", "C15_originals_unchanged",
     "C15_expand", "C15_grouped_view", "C15_grouped_set", "C15_grouped_replace", "C15_replace_project_only_named",
     "C15_init_from_record",
-    "C15_expand_prefix_refuted", "C15_grouped_replace_prefix_refuted", "C15_hyp_satisfiable",
+    "C15_expand_prefix_refuted", "C15_expand_metadata_prefix_refuted", "C15_grouped_replace_prefix_refuted",
+    "C15_hyp_satisfiable",
 ]
 
 NAMES = ["a", "b", "ts", "ts_description", "x", "value", "c", "n"]
@@ -169,7 +170,7 @@ def ref_expand(r):
     for n, t, v in tsf:
         fields = [("ts", "datetime", v), ("ts_description", "string", str_obs(n))]
         fields += [f for f in r["fields"] if f[0] not in ("ts", "ts_description")]
-        out.append(dict(name=r["name"], fields=fields, res=[NONE, NONE, NOW, VER]))
+        out.append(dict(name=r["name"], fields=fields, res=list(r["res"][:3]) + [VER]))   # the original's metadata
     return out
 
 
@@ -388,18 +389,13 @@ def case_expand(g, T):
         if len(outs) == 1 and outs[0] is r:
             got = [before]
         else:
-            got = []
-            for o in outs:
-                oo = obs(o)
-                if not isinstance(o._generated, pydt.datetime):
-                    raise Bad("%s yielded a record without _generated" % what, dict(out=repr(oo)))
-                oo["res"][2] = NOW        # the creation time of the timestamp record: not compared
-                got.append(oo)
+            got = [obs(o) for o in outs]
     if got != want:
-        raise Bad("%s yielded %s, expected one record per datetime field with ts = the original value of that field: %s" % (
+        raise Bad("%s yielded %s, expected one record per datetime field with ts = the original value of that field and the "
+                  "original record's _source/_classification/_generated: %s" % (
             what, err or repr(got), repr(want)), dict(got=repr(got), want=repr(want), error=err, record=repr(before)))
     check_unchanged([before], [r], what)
-    terms = ["orecs_eqb (p_iter_timestamped RES vver VName dflt gen_ts tsres F gen_ts_extends_previous %s) (Some %s) && recs_eqb (ref_expand RES vver VName gen_ts tsres %s) %s" % (
+    terms = ["orecs_eqb (p_iter_timestamped RES vver VName dflt gen_ts tsres F gen_ts_extends_previous %s) (Some %s) && recs_eqb (ref_expand RES vver VName gen_ts %s) %s" % (
         T.rec(before), T.recs(got), T.rec(before), T.recs(got))]
     nts = len([f for f in before["fields"] if f[1] == "datetime"])
     special = any(f[0] in ("ts", "ts_description") for f in before["fields"])
@@ -672,23 +668,22 @@ def fixed_cases():
     """the inputs of the two repaired defects, always run"""
     from flow.record import GroupedRecord, RecordDescriptor, iter_timestamped_records
     A = RecordDescriptor("t/a", [("datetime", "a"), ("string", "x"), ("datetime", "ts")])
-    r = A(a=pydt.datetime(2001, 1, 1, tzinfo=UTC), x="xx", ts=pydt.datetime(2002, 2, 2, tzinfo=UTC), _generated=GENS[0])
+    r = A(a=pydt.datetime(2001, 1, 1, tzinfo=UTC), x="xx", ts=pydt.datetime(2002, 2, 2, tzinfo=UTC), _generated=GENS[0],
+          _source="host1", _classification="secret")
     before = obs(r)
-    what = "iter_timestamped_records(t/a(datetime a=2001-01-01, string x, datetime ts=2002-02-02))"
+    what = ("iter_timestamped_records(t/a(datetime a=2001-01-01, string x, datetime ts=2002-02-02, _source='host1', "
+            "_classification='secret', _generated=2020-01-02))")
     try:
-        got = []
-        for o in iter_timestamped_records(r):
-            oo = obs(o)
-            oo["res"][2] = NOW
-            got.append(oo)
+        got = [obs(o) for o in iter_timestamped_records(r)]
     except Exception as e:  # noqa
         raise Bad("%s raised %s: %s" % (what, type(e).__name__, e), dict(fixed="expand-ts-named-field", error=repr(e)))
     want = ref_expand(before)
     if got != want:
         tsvals = [dict((f[0], f[2]) for f in o["fields"]).get("ts") for o in got]
-        raise Bad("%s yielded records with ts = %s and fields %s; expected one record per datetime field with ts = that field's "
-                  "ORIGINAL value (a's, then ts's) followed by the original fields a, x" % (
-                      what, repr(tsvals), [[f[0] for f in o["fields"]] for o in got]),
+        raise Bad("%s yielded records with ts = %s, fields %s and reserved slots %s; expected one record per datetime field with "
+                  "ts = that field's ORIGINAL value (a's, then ts's) followed by the original fields a, x, and the original "
+                  "record's _source/_classification/_generated" % (
+                      what, repr(tsvals), [[f[0] for f in o["fields"]] for o in got], [o["res"][:3] for o in got]),
                   dict(fixed="expand-ts-named-field", got=repr(got), want=repr(want)))
     D1 = RecordDescriptor("m/a", [("string", "x"), ("varint", "p")])
     D2 = RecordDescriptor("m/b", [("string", "x"), ("string", "z")])
@@ -742,8 +737,7 @@ def run(ctx):
         "values are opaque to the composition code: the model moves tokens; a token is the canonical deep observation of the value "
         "(recgen.obs_value, unset typed lists/digests observed as the type's empty default); new values handed to setattr/_replace are "
         "observed after the field type's own conversion (conversion is C05's subject; only convertible values are generated)",
-        "records are always built with _generated given; the _generated slot of the expansion's outputs is the creation time of the "
-        "internal TimestampRecord and is not compared",
+        "records are always built with _generated given; all four reserved slots of every output are compared (_version re-stamped)",
         "descriptors are duplicate-free (duplicate field names inside one descriptor are C06's known finding)",
         "CPython's OrderedDict / ChainMap / dict.pop / keyword-argument semantics are modelled by od_set, chain_get, pop, "
         "init_from_dict in coq/model/Compose.v and validated by the correspondence",
